@@ -137,8 +137,11 @@ func init() {
 						// a target whose name is a pattern: it may select several resources (the name family app, app-1, app2, …) — under
 						// either spelling (the deprecated one insists on SOME name, so the name stays)
 						if tg, ok := po["target"].(Obj); ok {
-							if nm, ok := tg["name"].(string); ok && nm != "" {
-								tg["name"] = nm + ".*"
+							if nm, ok := tg["name"].(string); ok && nm != "" && nm != "xapp" { // (prefix `x` + `app` = `xapp`: rename-sensitive, finding C19-K1)
+								// (the pattern is open on BOTH sides: the affixes of the layers — p-, dev-, x, -s, -v2, z — add nothing it
+								// could match, so it selects the same resources before and after the renaming transformers; a pattern
+								// open on one side only would run into finding C19-K1, the different position of the two spellings)
+								tg["name"] = ".*" + nm + ".*"
 								delete(tg, "kind")
 							}
 						}
@@ -220,7 +223,17 @@ func init() {
 			case aerr != nil:
 				o.fail("edit-fix-breaks-build", "after edit fix the build fails: "+aerr.Error(), cs, dumpFS(fs3, "/"), nil, nil)
 			case after != before:
-				o.fail("edit-fix-changes-output", "build(T) != build(fix(T))", cs, dumpFS(fs3, "/"), firstDiff(before, after), nil)
+				cls, what := "edit-fix-changes-output", "build(T) != build(fix(T))"
+				// recogniser of finding C19-K1 on the fix path: fix moves `patchesJson6902` entries to `patches`, which run BEFORE the
+				// renaming transformers instead of after them; when the outputs agree once the JSON patches' own annotation is left
+				// out, the only difference is WHICH resources a target selected
+				for _, u := range used {
+					if u == "patchesJson6902" && stripJP(before) == stripJP(after) {
+						cls = "json6902-target-selected-after-renaming"
+						what = "after edit fix a former patchesJson6902 target selects another set of resources (as a `patches` entry it runs before the renaming transformers)"
+					}
+				}
+				o.fail(cls, what, cs, dumpFS(fs3, "/"), firstDiff(before, after), nil)
 			default:
 				for _, d := range []string{"commonLabels:", "patchesStrategicMerge:", "patchesJson6902:"} {
 					if strings.Contains(string(kf), "\n"+d) || strings.HasPrefix(string(kf), d) {
@@ -248,7 +261,7 @@ func stripJP(out string) string {
 	var ls []string
 	lines := strings.Split(out, "\n")
 	for i := 0; i < len(lines); i++ {
-		if strings.TrimSpace(lines[i]) == "jp: v" || strings.HasPrefix(strings.TrimSpace(lines[i]), "jp: ") {
+		if strings.TrimSpace(lines[i]) == "jp: v" || strings.HasPrefix(strings.TrimSpace(lines[i]), "jp: ") || strings.HasPrefix(strings.TrimSpace(lines[i]), "jp2: ") {
 			continue
 		}
 		ls = append(ls, lines[i])
